@@ -1724,6 +1724,98 @@ theorem walk_last_edge (G : ι → ι → ℝ) (x y : ι) (m : ℕ) (hm : 1 ≤ 
 
 end bfs
 
+-- ===== NINTH BATCH: sum of squared node-to-module sums (`lemma_msq`, `lemma_modsum_def`; participation coefficient, C14) =====
+-- The SMT `msq(W, c, x, k, n) = Σ_{m<k} modsum(W, c, x, m, n)^2` is uninterpreted; SMT labels are `m + 1` for the 0-based module `m`.
+-- Here labels are natural numbers (`c : ι → ℕ`), `modsumN W c x m` is the file's `modsum W c x (m + 1)` (`modsumN_eq_modsum`).
+-- `msq_relabel` is the C14 point: the total over all used labels depends on the labels only through the partition.
+
+section participation
+open BigOperators Finset
+variable {ι : Type} [Fintype ι] [DecidableEq ι]
+
+/-- node-to-module sum for the 0-based module `m` (SMT label `m + 1`) -/
+noncomputable def modsumN (W : ι → ι → ℝ) (c : ι → ℕ) (x : ι) (m : ℕ) : ℝ := ∑ y, if c y = m + 1 then W x y else 0
+
+noncomputable def msq (W : ι → ι → ℝ) (c : ι → ℕ) (x : ι) (k : ℕ) : ℝ := ∑ m ∈ Finset.range k, (modsumN W c x m) ^ 2
+
+theorem modsumN_eq_modsum (W : ι → ι → ℝ) (c : ι → ℕ) (x : ι) (m : ℕ) : modsumN W c x m = modsum W c x (m + 1) := rfl
+
+/-- `lemma_msq`, first conjunct: `msq(W, c, x, 0, n) == 0` -/
+theorem msq_zero (W : ι → ι → ℝ) (c : ι → ℕ) (x : ι) : msq W c x 0 = 0 := by
+  simp [msq]
+
+/-- `lemma_msq`, second conjunct: `k >= 0 → msq(W,c,x,k+1,n) == msq(W,c,x,k,n) + modsum(W,c,x,k,n)^2` -/
+theorem msq_succ (W : ι → ι → ℝ) (c : ι → ℕ) (x : ι) (k : ℕ) :
+    msq W c x (k + 1) = msq W c x k + (modsumN W c x k) ^ 2 := by
+  unfold msq
+  rw [Finset.sum_range_succ]
+
+/-- the same with the square written as a product, as the SMT instance does -/
+theorem msq_succ_mul (W : ι → ι → ℝ) (c : ι → ℕ) (x : ι) (k : ℕ) :
+    msq W c x (k + 1) = msq W c x k + modsumN W c x k * modsumN W c x k := by
+  rw [msq_succ, sq]
+
+/-- `lemma_modsum_def(R, W, c, m, n)`: the row sums of the masked matrix are the node-to-module sums -/
+theorem modsum_def_row (R W : ι → ι → ℝ) (c : ι → ℕ) (m : ℕ) (h : ∀ x y, R x y = if c y = m + 1 then W x y else 0) :
+    ∀ x, sum1 (R x) = modsumN W c x m := by
+  intro x
+  unfold sum1 modsumN
+  exact Finset.sum_congr rfl (fun y _ => h x y)
+
+/-- label-free characterisation: if all labels lie in `1..K`, the sum of the squared node-to-module sums over the `K` modules is
+`∑ y, W x y * (sum of W x z over the z in the same class as y)`, an expression in the partition only -/
+theorem msq_eq_pairs (W : ι → ι → ℝ) (c : ι → ℕ) (x : ι) (K : ℕ) (hc : ∀ y, 1 ≤ c y ∧ c y ≤ K) :
+    msq W c x K = ∑ y, W x y * ∑ z, if c z = c y then W x z else 0 := by
+  unfold msq
+  have h1 : ∀ m, (modsumN W c x m) ^ 2 = ∑ y, (if c y = m + 1 then W x y * modsumN W c x m else 0) := by
+    intro m
+    rw [sq]
+    nth_rewrite 1 [modsumN]
+    rw [Finset.sum_mul]
+    apply Finset.sum_congr rfl
+    intro y _
+    by_cases hy : c y = m + 1
+    · rw [if_pos hy, if_pos hy]
+    · rw [if_neg hy, if_neg hy, zero_mul]
+  simp only [h1]
+  rw [Finset.sum_comm]
+  apply Finset.sum_congr rfl
+  intro y _
+  have hy := hc y
+  have hcy : c y = c y - 1 + 1 := by omega
+  rw [Finset.sum_eq_single (c y - 1)]
+  · rw [if_pos hcy]
+    congr 1
+    unfold modsumN
+    rw [← hcy]
+  · intro m _ hm
+    rw [if_neg]
+    intro h
+    apply hm
+    omega
+  · intro h
+    exfalso
+    apply h
+    rw [Finset.mem_range]
+    omega
+
+/-- C14: the total over all labels depends on the labels only through the partition (labels in `1..K₁` resp. `1..K₂`, used or not;
+same equality pattern) -/
+theorem msq_relabel (W : ι → ι → ℝ) (c₁ c₂ : ι → ℕ) (x : ι) (K₁ K₂ : ℕ)
+    (h1 : ∀ y, 1 ≤ c₁ y ∧ c₁ y ≤ K₁) (h2 : ∀ y, 1 ≤ c₂ y ∧ c₂ y ≤ K₂) (hpat : ∀ y z, c₁ y = c₁ z ↔ c₂ y = c₂ z) :
+    msq W c₁ x K₁ = msq W c₂ x K₂ := by
+  rw [msq_eq_pairs W c₁ x K₁ h1, msq_eq_pairs W c₂ x K₂ h2]
+  apply Finset.sum_congr rfl
+  intro y _
+  congr 1
+  apply Finset.sum_congr rfl
+  intro z _
+  by_cases h : c₁ z = c₁ y
+  · rw [if_pos h, if_pos ((hpat z y).mp h)]
+  · rw [if_neg h, if_neg (fun h' => h ((hpat z y).mpr h'))]
+
+end participation
+
 -- NOT PROVED HERE: nothing was left out; every quantified fact of `spec_axioms()` and every `lemma_*` instance of
 -- engine/pyvc/core.py has a theorem above (see README.md for the table).  Three SMT axioms are not theorems but
 -- definitions / typing facts of this formalisation:
@@ -1747,5 +1839,7 @@ end bfs
 --  `lemma_reach_closed`: all proved.)
 -- (eighth batch, in `section bfs`: `colsum_zero_of_nonneg`, `rowsum_zero_of_nonneg` for `lemma_nonneg_sum_zero`; `walk_first_edge`,
 --  `walk_last_edge` for `lemma_walk_ends`: all proved.)
+-- (ninth batch: definitions `modsumN`, `msq`; `msq_zero`, `msq_succ` (`msq_succ_mul`) for `lemma_msq`, `modsum_def_row` for `lemma_modsum_def`,
+--  `msq_eq_pairs`, `msq_relabel` (C14: dependence on the partition only): all proved.)
 
 end VerifLemmas
